@@ -310,6 +310,19 @@ def rule_c(repo, res, m, fields, where):
             res.check(k in seen, "C28.c", "zero-rejected-covered:%s" % k, where, "the validator rejects %s == 0 but the CSV reader has no parser entry for it" % k, by="has a parser")
 
 
+def _guards_of(node, top):
+    out = []
+    c, p = node, getattr(node, "_parent", None)
+    while p is not None and p is not top:
+        if isinstance(p, ast.If):
+            if any(c is x for x in p.body):
+                out.append((p.test, True))
+            elif any(c is x for x in p.orelse):
+                out.append((p.test, False))
+        c, p = p, getattr(p, "_parent", None)
+    return out
+
+
 def rule_d(repo, res, m, fn, loop, fields, where):
     # picture_bytes
     ok = False
@@ -320,6 +333,33 @@ def rule_d(repo, res, m, fn, loop, fields, where):
             f_parse = any(isinstance(b, ast.Assign) and subscript_key(b.targets[0], "features") == "picture_bytes" and isinstance(b.value, ast.Call) and dotted(b.value.func) == "pop" and classify_parser(b.value.args[1])[0] == "int" and classify_parser(b.value.args[1])[1] >= 1 and len(b.value.args) == 2 for b in s.orelse)
             ok = t_none and t_raise and f_parse
     res.check(ok, "C28.d", "picture_bytes:lossless-arm", where, "picture_bytes must be None (and its presence rejected) exactly when lossless, and a parsed integer >= 1 (no default) otherwise", by="None/raise on the lossless arm, parse_int_at_least(1) on the other")
+    # the word "default" is accepted only where a default was supplied
+    pop = None
+    for n in ast.walk(fn):
+        if isinstance(n, ast.FunctionDef) and n is not fn and n.name == "pop":
+            pop = n
+    ok = False
+    detail = "closure pop(field_name, parser, <default>) not found"
+    if pop is not None:
+        dname = pop.args.vararg.arg if pop.args.vararg is not None else (pop.args.args[2].arg if len(pop.args.args) > 2 else None)
+        is_var = pop.args.vararg is not None
+        rets = [r for r in ast.walk(pop) if isinstance(r, ast.Return) and r.value is not None and dname is not None and any(isinstance(x, ast.Name) and x.id == dname for x in ast.walk(r.value))]
+        good = bool(rets)
+        for r in rets:
+            terms = []
+            for t, pol in _guards_of(r, pop):
+                if pol:
+                    terms.extend(t.values if isinstance(t, ast.BoolOp) and isinstance(t.op, ast.And) else [t])
+            tn = [norm(t) for t in terms]
+            says_default = any(x.endswith(".lower() == 'default'") or x.endswith(" == 'default'") for x in tn)
+            if is_var:
+                supplied = any(x in (dname, "len(%s) > 0" % dname, "len(%s) == 1" % dname, "len(%s) != 0" % dname) for x in tn)
+            else:
+                supplied = any(x.startswith("%s is not " % dname) and not x.endswith(" None") for x in tn)
+            good = good and says_default and supplied
+        ok = good
+        detail = "returns of the default found: %d" % len(rets)
+    res.check(ok, "C28.d", "default:only-where-supplied", where, "the cell text 'default' may be replaced by a default only when the caller supplied one for that row (a test that the default was given must guard the return, e.g. `if default_ and value.lower() == \"default\"`): otherwise rows without a default (level, profile, wavelet_index, slices_x, ...) accept the word and yield None or a missing value instead of the documented error (%s)" % detail, by="return of the default guarded by `supplied and cell == 'default'`")
     # uniqueness precedes insertion
     problems = []
 
